@@ -81,6 +81,15 @@ def hdr_ok(vc, data, off, dtls):
     return And(code_at(data, off) == 22, code_at(data, off + 1) == 3, code_at(data, off + 2) <= 3)
 
 
+def sub(data, a, n):
+    """data[a:a+n] for 0 <= a, a + n <= len(data) (no clamping needed; callers establish the bounds separately)"""
+    if is_sym(data) or is_sym(a) or is_sym(n):
+        import z3
+        from pyvc.core import ssub, simp, _z, _zi
+        return SBytes(simp(ssub(_z(data), simp(_zi(a)), simp(_zi(n)))))
+    return data[a:a + n]
+
+
 def be24(b, i):
     return code_at(b, i) * 65536 + code_at(b, i + 1) * 256 + code_at(b, i + 2)
 
@@ -167,7 +176,7 @@ for _dtls in (False, True):
         check_against_reference(vc, out, ref, data)
 
     scenario(("dtls." if _dtls else "tls.") + "get_client_hello.reference", functions=[_fn, _gen, N + (":starts_like_dtls_record" if _dtls else ":starts_like_tls_record")],
-             lazy_generators=True, pc_slices=True, max_unroll=3)(_s_get)
+             lazy_generators=True, pc_slices=True, inbounds_lengths=True, max_unroll=3)(_s_get)
 
     def _s_prefix(vc, _dtls=_dtls, _fn=_fn):
         """(P) a complete hello is not changed by any bytes that follow (later records, the next segment)."""
@@ -185,7 +194,7 @@ for _dtls in (False, True):
         if not isnone(o2.result):
             vc.ensure("P.same_hello", o2.result == o1.result)
 
-    scenario(("dtls." if _dtls else "tls.") + "get_client_hello.stable_under_extension", functions=[_fn, _gen], lazy_generators=True, pc_slices=True, max_unroll=3)(_s_prefix)
+    scenario(("dtls." if _dtls else "tls.") + "get_client_hello.stable_under_extension", functions=[_fn, _gen], lazy_generators=True, pc_slices=True, inbounds_lengths=True, max_unroll=3)(_s_prefix)
 
     def _s_trunc(vc, _dtls=_dtls, _fn=_fn):
         """(M) every prefix of a stream with a complete hello is either incomplete or already gives the same hello — never an error."""
@@ -202,7 +211,7 @@ for _dtls in (False, True):
         if not isnone(o1.result):
             vc.ensure("M.prefix_same_hello", o1.result == o2.result)
 
-    scenario(("dtls." if _dtls else "tls.") + "get_client_hello.prefix_never_invalid", functions=[_fn, _gen], lazy_generators=True, pc_slices=True, max_unroll=3)(_s_trunc)
+    scenario(("dtls." if _dtls else "tls.") + "get_client_hello.prefix_never_invalid", functions=[_fn, _gen], lazy_generators=True, pc_slices=True, inbounds_lengths=True, max_unroll=3)(_s_trunc)
 
 
 # ---------------------------------------------------------------------------------------------
@@ -265,6 +274,87 @@ def mk_step_scenario(dtls):
 
 mk_step_scenario(False)
 mk_step_scenario(True)
+
+
+# ---------------------------------------------------------------------------------------------
+# get_client_hello as an inductive machine over (offset, accumulated handshake bytes): one arbitrary iteration of the record
+# loop *together with* the consumer's loop body (the generator is advanced lazily). Covers any number of records.
+
+
+def complete(c, dtls):
+    """the accumulated handshake bytes c contain a whole handshake message"""
+    if dtls:
+        return And(len_(c) >= 13, len_(c) >= be24(c, 9) + 12)
+    return And(len_(c) >= 4, len_(c) >= be24(c, 1) + 4)
+
+
+def mk_machine_scenario(dtls):
+    fn = L + (":get_dtls_client_hello" if dtls else ":get_client_hello")
+    gen = L + (":dtls_handshake_record_contents" if dtls else ":handshake_record_contents")
+    H = 13 if dtls else 5
+
+    def s_machine(vc):
+        if vc.mode == "native":
+            return  # the unrolled twin (get_client_hello.reference) is the natively replayable form
+        data = vc.sym_bytes("data")
+        st = {"calls": 0, "o0": None, "c0": None}
+
+        def consumer_locals(it):
+            return it.frames[-2].locals
+
+        def inv(it, env, idx):
+            st["calls"] += 1
+            off = env["offset"]
+            c = consumer_locals(it)["client_hello"]
+            if st["calls"] == 2:
+                st["o0"], st["c0"] = off, c
+            if st["calls"] == 3:
+                # the iteration went round: a record was yielded, appended, and the hello is still incomplete
+                o0, c0 = st["o0"], st["c0"]
+                size = be16(data, o0 + H - 2)
+                it.ex.obligation("machine.continue.record_valid_complete_nonempty", And(len_(data) >= o0 + H + size, hdr_ok(vc, data, o0, dtls), size > 0))
+                it.ex.obligation("machine.continue.payload_appended_in_order", c == c0 + sub(data, o0 + H, size))
+                it.ex.obligation("machine.continue.offset_past_record", off == o0 + H + size)
+            # Inv: offset within data, accumulated bytes do not yet contain the whole message
+            return And(off >= 0, off <= len_(data), Not(complete(c, dtls)))
+
+        def havoc(it, env):
+            # arbitrary accumulated bytes, case-split on how much of the handshake header they already contain, with the
+            # header bytes as explicit integers (exhaustive: length 0..hl-1 exactly, or hl header bytes followed by anything)
+            import z3
+            hl = 12 if dtls else 4
+            k = it.ex.choose(hl + 1, "acc_shape")
+            parts = [z3.StrFromCode(it.fresh("int", f"acc_b{j}").t % 256) for j in range(k)]
+            if k == hl:
+                parts.append(it.fresh("bytes", "acc_rest").t)
+            t = z3.StringVal("") if not parts else parts[0] if len(parts) == 1 else z3.Concat(*parts)
+            consumer_locals(it)["client_hello"] = SBytes(t)
+
+        inv.havoc = havoc
+        vc.invariant(gen, 1, inv)
+        out = vc.call(fn, data)
+        o0, c0 = st["o0"], st["c0"]
+        if o0 is None:
+            return
+        vc.ensure("machine.total.raises_only_ValueError", out.ok or is_value_error(out))
+        size = be16(data, o0 + H - 2)
+        if not out.ok:
+            vc.ensure("machine.raise.only_on_bad_or_empty_record", And(len_(data) >= o0 + H, Or(Not(hdr_ok(vc, data, o0, dtls)), size == 0)))
+        elif isnone(out.result):
+            vc.ensure("machine.none.only_when_next_record_incomplete", Or(len_(data) < o0 + H, And(hdr_ok(vc, data, o0, dtls), size > 0, len_(data) < o0 + H + size)))
+        else:
+            c1 = c0 + sub(data, o0 + H, size)
+            vc.ensure("machine.hello.record_valid_complete_nonempty", And(len_(data) >= o0 + H + size, hdr_ok(vc, data, o0, dtls), size > 0))
+            vc.ensure("machine.hello.only_when_complete", complete(c1, dtls))
+            need = (be24(c1, 9) + 12) if dtls else (be24(c1, 1) + 4)
+            vc.ensure("machine.hello.length", len_(out.result) == need)
+            vc.ensure("machine.hello.is_prefix_of_accumulated_payloads", startswith(c1, out.result))
+
+    return scenario(("dtls." if dtls else "tls.") + "get_client_hello.machine_step", functions=[fn, gen], lazy_generators=True, pc_slices=True, inbounds_lengths=True, z3_timeout_ms=1500)(s_machine)
+
+
+mk_machine_scenario(False)
+mk_machine_scenario(True)
 
 
 def bounded(tier, seed):
